@@ -2,7 +2,7 @@
 From Model Require Import Engine.
 From Spec Require Import Sem FindSpec.
 From Proofs Require Import RefineBase Refine Attempt FindCorrect Total.
-From Proofs Require TotalRec.
+From Proofs Require TotalRec TotalFind.
 
 (* The specification is total on call-free patterns: nullable loop bodies, nested unbounded
    loops and zero-width anchors under `at least 0` included (an iteration that consumed nothing is
@@ -32,6 +32,22 @@ Theorem C10_spec_total_guarded_recursion :
 Proof. exact TotalRec.outs_total_guarded_lemma. Qed.
 Print Assumptions C10_spec_total_guarded_recursion.
 
+(* ... and at the level of the engine: for every pattern whose subroutines have guarded bodies, on every
+   text, the VM's `find all` returns (for every large enough step budget), and what it returns is the scan
+   of the specification - spans, bindings, values and match numbers.  No derivation is assumed: the
+   specification's totality supplies it. *)
+Theorem C10_find_decided_guarded_recursion :
+  forall r text, loop_ok r ->
+  (forall start t b p, defs_of r t = Some (b, p) ->
+     p = PNil /\ TotalRec.guarded text start (defs_of r) b /\ TotalRec.callok (defs_of r) b) ->
+  TotalRec.callok (defs_of r) r ->
+  exists S, sscan r text 0 S /\
+  exists F, forall fuel, F <= fuel ->
+    exists M, find_matches fuel (compile r 0) text true 0 0 0 = SOk M /\
+              map span_of M = S /\ Forall (faithful text) M /\ map mnum M = seq 1 (length M).
+Proof. exact TotalFind.find_decided_guarded_lemma. Qed.
+Print Assumptions C10_find_decided_guarded_recursion.
+
 (* non-vacuity: at least 0 (maybe 'a') — a nullable body under an unbounded loop — on "aa" *)
 Definition ex10 : rx :=
   XSeq (XLoop 1 0 (-1) false [] (XLoop 0 0 1 false [] (XAtom (IMatchLit false false [97]%N)))) XEps.
@@ -54,6 +70,24 @@ Example C10_recursion_witness : forall text start,
 Proof.
   intros text start. split.
   - intros [|t] b p H; [|discriminate]. inversion H; subst. split; [reflexivity|]. split.
+    + cbn [TotalRec.guarded ex10_body]. split; [exact I|]. right. split; [apply TotalRec.literal_consumes|].
+      cbn. repeat split; auto. eexists; reflexivity.
+    + cbn. repeat split; auto. eexists; reflexivity.
+  - cbn. repeat split; auto. eexists; reflexivity.
+Qed.
+
+(* non-vacuity of the engine-level theorem: the whole pattern {'a' maybe s 'b'} = s 'd', subroutine
+   defined in place, meets the hypotheses on every text *)
+Definition ex10_whole : rx := XSeq (XSub [115]%N ex10_body PNil) (XSeq (XAtom (IMatchLit false false [100]%N)) XEps).
+
+Example C10_engine_witness : forall text,
+  loop_ok ex10_whole /\
+  (forall start t b p, defs_of ex10_whole t = Some (b, p) ->
+     p = PNil /\ TotalRec.guarded text start (defs_of ex10_whole) b /\ TotalRec.callok (defs_of ex10_whole) b) /\
+  TotalRec.callok (defs_of ex10_whole) ex10_whole.
+Proof.
+  intros text. split; [cbn; repeat split; auto|]. split.
+  - intros start [|t] b p H; [|discriminate]. inversion H; subst. split; [reflexivity|]. split.
     + cbn [TotalRec.guarded ex10_body]. split; [exact I|]. right. split; [apply TotalRec.literal_consumes|].
       cbn. repeat split; auto. eexists; reflexivity.
     + cbn. repeat split; auto. eexists; reflexivity.
